@@ -16,7 +16,7 @@ from ..terms import NONE_T, dag_nodes, pretty
 from ..types import Ctx
 from .c04 import check_registry_reuse
 from .c07 import load_guard_facts
-from .common import TRUSTED_BASE, cfg_nodes_for, subst_single_assign, where
+from .common import TRUSTED_BASE, cfg_nodes_for, inl, subst_single_assign, where
 from .keyterm import KeyTerms, branches
 
 
@@ -315,6 +315,33 @@ def run(A, R: Report, thorough: bool):
     R.rule('R01.5', 'every run() argument is looked up under its own name in input_tasks / parameters', floor=1)
     check_run_argument_binding(A, R, 'R01.5')
 
+    # ---- R01.14 positional access to the inputs (`self.input_tasks[i]`) follows the declaration order
+    R.rule('R01.14', 'InputTasks keeps its positional list in step with its mapping: an input is appended exactly when its exact key is new (the fuzzy name lookup is not used for that)', floor=1)
+    itc = A.cls('InputTasks')
+    fset = itc.methods.get('__setitem__')
+    R.require(fset is not None, 'anchor: InputTasks.__setitem__ missing')
+    cfgs_ = A.cfg(fset)
+    apps = [n_ for n_ in inl(A, fset) if isinstance(n_, ast.Call) and isinstance(n_.func, ast.Attribute) and n_.func.attr == 'append' and src(n_.func.value) == 'self.task_list']
+    R.require(apps, 'anchor: self.task_list.append(...) missing in InputTasks.__setitem__')
+    fuzzy = '__contains__' in itc.methods
+    for ap in apps:
+        for cn in cfg_nodes_for(cfgs_, ap):
+            facts = [(subst_single_assign(A, fset, a_), pol) for a_, pol in cfgs_.facts_at(cn.id)]
+            exact = [a_ for a_, pol in facts if not pol and isinstance(a_, ast.Call) and src(a_.func) in ('super().__contains__', 'dict.__contains__')] + \
+                    [a_ for a_, pol in facts if isinstance(a_, ast.Compare) and len(a_.ops) == 1 and ((isinstance(a_.ops[0], ast.NotIn) and pol) or (isinstance(a_.ops[0], ast.In) and not pol))
+                     and src(a_.comparators[0]) in ('self.keys()', 'dict.keys(self)', 'super().keys()')]
+            via_self = [a_ for a_, pol in facts if isinstance(a_, ast.Compare) and len(a_.ops) == 1 and isinstance(a_.ops[0], (ast.In, ast.NotIn)) and src(a_.comparators[0]) == 'self']
+            if exact and not via_self:
+                R.ok('R01.14', 'InputTasks.__setitem__', 'appended when the exact key is new', where=where(fset, ap))
+            elif via_self and fuzzy:
+                R.violation('R01.14', 'InputTasks.__setitem__', key_of('fuzzy-newness', src(via_self[0])), f'`{src(via_self[0])}` goes through the overridden (short-name) __contains__: an input whose name merely *resolves* to an earlier key '
+                            '(`dataset` after `baseline::dataset`, `stats` after `raw:stats`) is stored in the mapping but not appended to the positional list, so `self.input_tasks[i]` of every later input is shifted and run() gets another task\'s value',
+                            where=where(fset, ap))
+            elif not facts:
+                R.violation('R01.14', 'InputTasks.__setitem__', key_of('always-appended'), 'the positional list is appended on every store: re-wiring the inputs (second pass, shared registry) duplicates positions', where=where(fset, ap))
+            else:
+                R.undecided('R01.14', 'InputTasks.__setitem__', f'newness test not recognised: {[src(a_) for a_, _ in facts]}', where=where(fset, ap))
+
     # ---- R01.6 sharing keys
     R.rule('R01.6', 'in parameter mode the first pass shares no task objects (or shares under a key that covers the namespace)', floor=1)
     for f in [A.func('Chain._prepare')]:
@@ -386,3 +413,9 @@ def run(A, R: Report, thorough: bool):
             R.check(ok, 'R01.7', 'Task._prepare_parameters', key_of('deepcopy'), 'declarations deep-copied per task object',
                     'Meta.parameters objects are shared by every instance of the task class: set_value of one task overwrites the values another task (other config / namespace) reads',
                     witness=cfg.describe_path(p) if p else None, where=where(fpp, c))
+
+    from .c03 import check_lossless_encoding
+    from .keyterm import KeyTerms as _KT
+    R.rule('R01.15', 'the storage key is a hash of the whole key text: the text is encoded losslessly', floor=1)
+    check_lossless_encoding(A, R, 'R01.15', _KT(A))
+
